@@ -1,1 +1,2 @@
 import Rtsp.Props.C03
+#print axioms Rtsp.Codec.Fragmented.c03_roundtrip
